@@ -1,6 +1,7 @@
 (* C01 — value round trip: parsing what was dumped gives the value back. *)
 From Coq Require Import Lia.
-From VF Require Import Model.Writer Proofs.CodecCorrect Proofs.SizeProps Proofs.RoundTrip Proofs.ValueRoundTrip Proofs.ValueRoundTripDyn Proofs.AlignedSize Proofs.AlignedRoundTrip Proofs.BitsCorrect Proofs.BitRun Proofs.BitStruct Proofs.BitMixed Gen.GeneratedOk.
+From VF Require Import Model.Writer Proofs.CodecCorrect Proofs.SizeProps Proofs.RoundTrip Proofs.ValueRoundTrip Proofs.ValueRoundTripDyn Proofs.AlignedSize Proofs.AlignedRoundTrip Proofs.BitsCorrect Proofs.BitRun Proofs.BitStruct Proofs.BitMixed Model.Compiler Gen.GeneratedOk.
+From VF Require Proofs.CompilerProps Proofs.CompiledRoundTrip.
 Open Scope string_scope. Open Scope list_scope. Open Scope Z_scope.
 
 (* For every configuration with a proper byte order, every sequential type with fixed counts (`flat` and `rt_ty`: integers of every width
@@ -51,6 +52,15 @@ Proof. exact mixed_struct_round_trip. Qed.
 Theorem plain_members_of_the_earlier_classes_qualify : forall c, endian_ok (c_endian c) -> forall fuel f, flat (f_ty f) = true -> dyn_ty c (f_ty f) = true ->
   plain_ok c (fun f => read_ty c fuel (f_ty f)) (fun f => write_ty c (f_ty f)) (fun f => has_tyc c (f_ty f)) (SPlain f).
 Proof. exact plain_ok_of_class. Qed.
+(* ... and through the COMPILED reader (C03's theorem composed with value_round_trip_dynamic): for the structures the generator's plan is proved
+   about (packed, parser-made, members = scalars, fixed arrays of scalars, sub-readers), parsing the dump with the generated statements gives
+   the value back and consumes exactly the dump *)
+Theorem compiled_value_round_trip : forall c, endian_ok (c_endian c) -> forall fuel nm fs p,
+  Forall (fun f => f_off f = None /\ CompilerProps.cls' c fuel f) fs -> NoDup (map f_name fs) -> CompilerProps.bsize c fs <= 9223372036854775807 -> compile_plan c false fs = Ok p ->
+  flat (TStruct nm fs false) = true -> dyn_ty c (TStruct nm fs false) = true ->
+  forall v wpos bs, has_tyc c (TStruct nm fs false) [] v -> write_ty c (TStruct nm fs false) v wpos = Ok bs ->
+    forall pre rest, exists v', read_compiled c fuel false fs (pre ++ bs ++ rest) (zlen pre) = Ok (v', zlen pre + zlen bs) /\ strip v' = strip v.
+Proof. exact CompiledRoundTrip.compiled_parse_dump_identity. Qed.
 (* writing never alters a number: a value that does not fit the width is rejected, a value that fits decodes to itself *)
 Theorem out_of_range_is_rejected : forall e n signed v, fits n signed v = false -> int_to_bytes e n signed v = Err ERange.
 Proof. exact int_reject. Qed.
@@ -67,6 +77,7 @@ Print Assumptions entry_point_round_trip.
 Print Assumptions value_round_trip_dynamic.
 Print Assumptions value_round_trip_aligned.
 Print Assumptions mixed_bit_field_structure_round_trip.
+Print Assumptions compiled_value_round_trip.
 Print Assumptions out_of_range_is_rejected.
 
 (* non-vacuity *)
